@@ -30,14 +30,15 @@ def _head_server_bytes(inp, obs):
 KNOWN = {"D16-head-server-generated-body": _head_server_bytes}
 ALPHABET = b"abcdefghijklmnopqrstuvwxyz"
 STATUSES = ("200 OK", "204 No Content", "304 Not Modified", "404 Not Found")
-MODES = ("list", "gen", "write", "file", "file_noseek")
+MODES = ("list", "gen", "write", "write_list", "file", "file_noseek")
 LENS = (0, 1, 3)
 
 
 def BOUNDS(tier):
     return ("application program: status in %r; declared Content-Length absent or one symbolic decimal digit (0-9, decided against the produced "
-            "byte counts by integer arithmetic); body as list / generator / write() calls / wsgi.file_wrapper (seekable, not seekable) of up to %d pieces "
-            "with lengths in %r; failure (exception) before output or after the first piece; request method GET/HEAD, HTTP/1.0 and 1.1, Connection "
+            "byte counts by integer arithmetic); body as list / generator / write() calls / write() then list / wsgi.file_wrapper (seekable, not seekable) of up to %d pieces "
+            "with lengths in %r; failure before output (ordinary exception) or after the first piece (ordinary exception or an OSError subclass, the "
+            "latter with log_socket_errors on and off); request method GET/HEAD, HTTP/1.0 and 1.1, Connection "
             "absent/close/keep-alive; with and without a second pipelined request." % (STATUSES, 2 if tier == "quick" else 3, LENS))
 
 
@@ -71,13 +72,19 @@ def make_program(job, eng, with_fail=True):
     fail = None
     if with_fail:
         fail = (None, "before", "after_first")[eng.choose(3, "fail")]
-        if fail == "after_first" and (job["mode"] not in ("gen", "write") or k < 1 or not pieces[0]):
+        if fail == "after_first" and (job["mode"] not in ("gen", "write", "write_list") or k < 1 or not pieces[0]):
             raise PathAbort()
+    # the failure is an ordinary exception or an OSError subclass (which Task.service treats as a socket error), with log_socket_errors on / off
+    exc, logsock = "app", True
+    if fail == "after_first":
+        exc = ("app", "oserror")[eng.choose(2, "exc")]
+        if exc == "oserror":
+            logsock = bool(eng.choose(2, "logsock"))
     conn = (None, "close", "keep-alive")[eng.choose(3, "conn")]
     second = bool(eng.choose(2, "second"))
     skipn = eng.choose(2, "fileoffset") if job["mode"] in ("file", "file_noseek") and sum(len(p) for p in pieces) > 1 else 0
     return dict(fileoffset=skipn, mode=job["mode"], status=STATUSES[job["st"]], pieces=pieces, cl=cl, fail=fail, ver=job["ver"], method=job["method"],
-                conn=conn, second=second)
+                conn=conn, second=second, exc=exc, logsock=logsock)
 
 
 def make_inputs(job):
@@ -130,6 +137,8 @@ class ProgramApp:
             raise self.exc_class("boom before output")
         app = self
         mode = p["mode"]
+        if p.get("exc") == "oserror":
+            self.exc_class = lambda msg: FileNotFoundError(2, msg)
         if mode == "list":
             start_response(p["status"], hdrs)
             self.produced = list(p["pieces"])
@@ -151,6 +160,16 @@ class ProgramApp:
                 if p["fail"] == "after_first" and i == 0:
                     raise self.exc_class("boom after the first write")
             return CloseableList([], self)
+        if mode == "write_list":
+            # the first piece through the write() callable, the rest as the returned list (PEP 3333 allows mixing)
+            write = start_response(p["status"], hdrs)
+            if p["pieces"]:
+                self.produced.append(p["pieces"][0])
+                write(p["pieces"][0])
+                if p["fail"] == "after_first":
+                    raise self.exc_class("boom after the first write")
+            self.produced.extend(p["pieces"][1:])
+            return CloseableList(p["pieces"][1:], self)
         data = b"".join(p["pieces"])
         off = p.get("fileoffset", 0)
         self.produced = [data[off:]]
@@ -219,7 +238,10 @@ def build_request(p):
 
 
 def run_program(ns, prog, adj_kw=None, app_cls=ProgramApp, sock=None, **appkw):
-    adj = common.make_adj(ns, **(adj_kw or {}))
+    adj_kw = dict(adj_kw or {})
+    if not prog.get("logsock", True):
+        adj_kw["log_socket_errors"] = False
+    adj = common.make_adj(ns, **adj_kw)
     app = app_cls(prog, ns, **appkw)
     r = common.drive(ns, adj, app, [build_request(prog)], sock=sock)
     fclose = None
